@@ -15,7 +15,6 @@ RULE = ("structured URL strings and random build()/modifier programs in auto-enc
         "(F14 rootless path under an authority scheme, F15 colon in first segment, F17 bracketed non-IPv6, empty authority) "
         "are matched by extracted Coq classifiers; distinct = distinct program; non-trivial = the program's result is a URL")
 
-KF = [("F14", "kf_f14"), ("F15", "kf_f15"), ("F17", "kf_f17")]
 
 
 def run(ctx):
@@ -28,4 +27,4 @@ def run(ctx):
     suites.apply_pred(ctx, "C03-stage2-reparse", "c03_pred", outs,
                       lambda k, i: (outs[k][i] + " " + st2[k][i]) if i in st2[k] else None,
                       lambda k, i: {"program": progs[i], "first": outs[k][i], "reparsed": st2[k].get(i)},
-                      kf=KF)
+                      kf=core.kf_list(ctx))
